@@ -130,7 +130,7 @@ class Judge:
             if kind == "boolop":
                 # `a or b`: value is b only when a is falsy
                 t = test.values[0] if isinstance(test, ast.BoolOp) else test
-                return "body" if self._atom_empty(t, site, targets) == "false" else None
+                return "else" if self._atom_empty(t, site, targets) == "false" else None  # b ("else") is the value only when a is empty
             return self._side(test, site, targets)
         return None
 
